@@ -65,10 +65,22 @@ CHECKS = {
          "detsim",
          "At every quiescent point queuedJobs/activeJobs, counts and state equal the truth and lastScheduled/lastExecuted cover every existing Job; over all versions they never decrease.",
          "", "6/C15"),
+ "C16": ("exploration", "runtime monitor over the real mutating/validating webhooks: Webhook.Handle on generated raw AdmissionRequests, returned JSON patch applied to the raw bytes with evanphx/json-patch, re-submission, independent expectations for configName expansion, defaults and lastUpdated",
+         "refmon",
+         "For generated Job and JobConfig requests (typed and raw variants with fields omitted / null / empty, create and update, generated dynamic-config defaults) that the whole chain admits: the patch applies and reproduces the defaulted object, re-submission yields no patch, configName expansion gives the JobConfig's defaulted template, one controller owner reference and UID label, the policy default, substitution precedence explicit > option > JobConfig context; Jobs carry finalizer (create only), type, TTL, maxAttempts, pending timeout, restart policy defaults; lastUpdated is stamped exactly on schedule creation/change and never moved backwards.",
+         "evaluation of option values is C18's subject; kube-apiserver's own patch application is represented by the same library it uses.", "6/C16"),
+ "C17": ("exploration", "runtime monitor: generated near-boundary JobConfigs through the real admission chain, accepted ones pushed through cronschedule.New/Bump, NewJobFromJobConfig, the Job admission chain and NewPod with panic capture; generated one-field update pairs through the real update chain",
+         "refmon",
+         "Every JobConfig the chain accepts (under every generated cron dynamic configuration) must load into the cron schedule next to a healthy neighbour, bump, instantiate into a Job that passes the Job chain (with constructed values for required options) and expand into Pods for every index without error or panic; updates changing exactly one immutable field (incl. start policy once started or finished, kill timestamp once passed) must be rejected while control updates pass.",
+         "Kubernetes' PodTemplateSpec validation trusted; accept rate of the generator is reported in the evidence.", "6/C17"),
  "C18": ("exploration", "reference-model monitor: real EvaluateOptions / Mutator.MutateCreateJob / NewPod vs independent evaluator and single-pass substituter; determinism by repeated execution",
          "refmon",
          "Generated option specs (all five types), value maps (missing/null/wrong-typed/custom/'${..}'), overlapping explicit substitutions and task templates are run through the real option evaluation, the real configName admission path and NewPod; accepted outputs must satisfy per-type constraint predicates, equal the JobConfig default when no value was given, follow the source precedence, blank unknown reserved-prefix variables, leave other text untouched and be identical over 20 repeated calls. Held on the inputs explored.",
          "goment/time.Parse trusted for Date; exact text comparison only where sequential and single-pass substitution semantics coincide (no '$','{','}' in substituted values, no nested variables), determinism/totality always.", "6/C18"),
+ "C19": ("exploration", "runtime reference-model monitor over the production ConfigManager and loaders with their real informers (delivery awaited on a logical marker), reader loops after bad updates, and a race-detector phase with concurrent readers and updaters",
+         "refmon",
+         "After every applied ConfigMap/Secret update the three getters must equal an independent field-by-field layering (defaults < ConfigMap < Secret, zero values win); after malformed / wrong-typed / bad-base64 updates 60 consecutive reads must return no error and the last good value, and a fence update must restore the layering; under -race 4 readers during ~10^4 updates must never see an error, a torn document or a non-monotone value, and the race detector must report nothing in configloader / controllercontext.",
+         "the harness reads after every update, so 'last good' is well defined; fake clientset watch stands in for the API server.", "6/C19"),
  "C20": ("fault_enumeration", "every controller API call index of confluent cron+ad-hoc workloads x {500 before, 409 before, timeout after apply} plus random finite fault patterns; all safety monitors adopted, fixpoint convergence, reference schedule stream, fault-free twin-run outcome comparison",
          "detsim",
          "With all four controllers and the cron controller on the simulated API: during the run every safety monitor (C02, C05-C13) must stay silent, after faults stop a fixpoint is reached within the step budget with bounded requeues, every due schedule time inside the determinate window has its Job, and the set of Jobs and their results equal those of the fault-free run with the same seed.",
